@@ -162,6 +162,26 @@ def generate(g, tier):
             cases.append(dict(op='compile_file', file='proj/main.txt', files=files, meta=dict(family='import-good', expout=out)))
         else:
             cases.append(dict(op='compile_file', file='proj/main.txt', files=files, meta=dict(family='ill-import-' + kind, badline=bad)))
+    # a triple-quote region at the very top of the FILE: its lines are kept verbatim (their leading white space is text, not
+    # indentation) and must not influence how the blocks after it are indented — any unit, whatever the region's lines begin with
+    for _ in range(count(tier, 40, 400)):
+        unit = g.units()
+        reg = []
+        for k in range(r.randint(1, 4)):
+            reg.append(r.choice(['', '  ', '\t', ' \t', '    ', ' ', unit, unit + ' ']) + f'STRING r{k}')
+        n1, n2 = r.randint(1, 3), r.randint(1, 2)
+        lines = ['"""'] + reg + ['"""', f'REPEAT {n1}', unit + 'STRING c', unit + f'REPEAT {n2}', unit + unit + 'STRING d', 'STRING e']
+        exp = [f'STRING r{k}' for k in range(len(reg))] + (['STRING c'] + ['STRING d'] * n2) * n1 + ['STRING e']
+        cases.append(dict(op='compile', src=dict(text='\n'.join(lines)), meta=dict(family='file-region', expout=exp, nocorr=True)))
+    # characters that some line-splitting routines treat as line ends (form feed, vertical tab, file/group/record separators, NEL,
+    # LINE / PARAGRAPH SEPARATOR) are ordinary characters INSIDE a line — whether the text uses LF or CRLF line ends
+    for ch in ['\x0b', '\x0c', '\x1c', '\x1d', '\x1e', '\x85', '\u2028', '\u2029']:
+        for nl in ('\n', '\r\n'):
+            n = r.randint(1, 3)
+            lines = [f'REPEAT {n}', f'    STRING page one{ch}page two', '    STRING x', 'STRING end']
+            cr = '\r' if nl == '\r\n' else ''
+            exp = [f'STRING page one{ch}page two{cr}', f'STRING x{cr}'] * n + ['STRING end']
+            cases.append(dict(op='compile', src=dict(text=nl.join(lines)), meta=dict(family='inline-separators', expout=exp, nocorr=True)))
     return cases
 
 
